@@ -34,6 +34,11 @@ type c14Case struct {
 	// (a depth or node limit the search will not reach before the clock does).
 	Extra      string `json:"extra,omitempty"`
 	ExtraFirst bool   `json:"extra_first,omitempty"`
+	// MovesToGo > 0: the go line also reports `movestogo N`, the third field a
+	// GUI sends with a clock. The engine may use it or not; whatever it does,
+	// every clause about the deadline holds (and cases are only compared with
+	// cases reporting the same value).
+	MovesToGo int `json:"movestogo,omitempty"`
 	NumFmt     int    `json:"num_fmt,omitempty"`  // 0 plain, 1 zero padded, 2 explicit plus sign: all decimal
 	OmitOpp    bool   `json:"omit_opp,omitempty"` // the go line carries only the mover's own clock fields
 	RunPolls   int    `json:"run_polls,omitempty"`
@@ -92,6 +97,9 @@ func (c c14Case) goLine() string {
 				fmt.Fprintf(&sb, " winc "+f+" binc "+f, wi, bi)
 			}
 		}
+	}
+	if c.MovesToGo > 0 && (c.MoveTime == 0 || c.WithClk) {
+		fmt.Fprintf(&sb, " movestogo %d", c.MovesToGo)
 	}
 	extra := c.Extra
 	if n, ok := strings.CutPrefix(extra, "searchmoves@"); ok {
@@ -210,6 +218,9 @@ func genC14Cases(rng *rand.Rand, n int, boundary []int64) []c14Case {
 		if rng.IntN(5) == 0 {
 			base.Extra = pick(rng, []string{"depth 64", "depth 60", "nodes 2000000000", "depth 63 nodes 1000000000", "searchmoves@1", "searchmoves@2", "searchmoves@3"})
 			base.ExtraFirst = rng.IntN(2) == 0
+		}
+		if rng.IntN(5) == 0 {
+			base.MovesToGo = pick(rng, []int{1, 1, 1, 2, 3, 10, 29, 30, 31, 40, 100, 1000})
 		}
 		if rng.IntN(3) == 0 {
 			// isready arriving while the search runs must not move the deadline
@@ -401,6 +412,7 @@ func monitorC14(cs *C14Scenario, out *UCIOutcome, windows []*goWindow) (vs []Vio
 		own, inc, mt int64
 		hasInc, clk  bool
 		ponder       bool
+		mtg          int
 	}
 	seen := map[key]c14Obs{}
 	for i, w := range windows {
@@ -487,7 +499,7 @@ func monitorC14(cs *C14Scenario, out *UCIOutcome, windows []*goWindow) (vs []Vio
 		if c.Own > margin && o.HUS > (c.Own-margin)*1000 {
 			add("margin", fmt.Sprintf("%s: hard deadline after %d us does not keep the %d ms margin of the remaining %d ms", desc, o.HUS, margin, c.Own), w.goSeq)
 		}
-		k := key{c.Own, c.OwnInc, c.MoveTime, c.HasInc, c.WithClk, c.Ponder && !c.PonderOff}
+		k := key{c.Own, c.OwnInc, c.MoveTime, c.HasInc, c.WithClk, c.Ponder && !c.PonderOff, c.MovesToGo}
 		if prev, ok := seen[k]; ok {
 			if prev.HUS != o.HUS || prev.SoftTime != o.SoftTime {
 				add("not-own-clock", fmt.Sprintf("%s: deadline %d us / soft %d ms, but the same own clock gave %d us / %d ms with side=%v opp=%d oppinc=%d (now side=%v opp=%d oppinc=%d)",
@@ -522,6 +534,9 @@ func c14Grid() []c14Case {
 				out = append(out, c14Case{White: white, Own: own, OwnInc: ic.inc, HasInc: ic.has, Opp: own*3 + 11, OppInc: map[bool]int64{true: 5, false: 0}[ic.has]})
 			}
 		}
+		// the last move before the time control, with and without increment
+		out = append(out, c14Case{White: true, Own: own, Opp: own*3 + 11, MovesToGo: 1})
+		out = append(out, c14Case{White: false, Own: own, OwnInc: own/2 + 1, HasInc: true, Opp: 13, OppInc: 5, MovesToGo: 1})
 		out = append(out, c14Case{White: true, Own: own, MoveTime: own, WithClk: false})
 		out = append(out, c14Case{White: false, Own: own, MoveTime: own, WithClk: true, Opp: 7})
 	}
